@@ -297,15 +297,18 @@ impl<T> RawTable<T> {
         if bucket.in_main {
             self.table.replace_bucket_with(bucket.bucket, f)
         } else if let Some(ref mut lo) = self.leftovers {
-            let items = &mut lo.items;
-            let b = bucket.bucket.clone();
-            lo.table.replace_bucket_with(b, move |t| {
-                let v = f(t);
-                if v.is_none() {
-                    items.reflect_remove(&bucket.bucket);
-                }
-                v
-            })
+            // hashbrown takes the element out of the table before it calls `f`, and only puts it
+            // back if `f` returns `Some`. The cached iterator must be told about a removal
+            // _before_ it happens, and must not go on to yield the bucket if `f` panics.
+            lo.items.reflect_remove(&bucket.bucket);
+            let still_occupied = lo.table.replace_bucket_with(bucket.bucket, f);
+            if still_occupied {
+                // The element is back in its bucket, but `reflect_insert` does not guarantee
+                // that an iterator that is already in that group will yield it again, so start
+                // over with a fresh iterator.
+                lo.items = lo.table.iter();
+            }
+            still_occupied
         } else {
             unreachable!("invalid bucket state");
         }
